@@ -8,7 +8,7 @@ for d in seeded/*/; do
   [ -n "${ONLY:-}" ] && [ "$n" != "$ONLY" ] && continue
   ids=$(cat $d/checks.txt)
   echo "=== $n: $ids"
-  out=$(tools/mutate.sh $d/patch.diff $ids 2>&1)
+  out=$(MUT=/tmp/mutm tools/mutate.sh $d/patch.diff $ids 2>&1)
   echo "$out" | python3 -c "
 import sys,json,re
 res={}; cur=None
